@@ -336,29 +336,42 @@ def mkField (kind : FieldKind) (start : Nat) (cm : Cm) (label type name : String
   (⟨kind, mkLoc start endLine cm (trailOf r), 0, label, type, name, num, json,
     mkOpts start (raws.filter (·.name != "json_name"))⟩, r)
 
+/-- the label of a field, if it has one -/
+def splitLabel (ts : List PTok) : String × List PTok :=
+  match ts with
+  | ⟨.ident s, _, _⟩ :: r =>
+    if s == "repeated" then ("repeated ", r) else if s == "optional" then ("optional ", r) else ("", ts)
+  | _ => ("", ts)
+
+/-- `type name = n […];` -/
+def plainField (first : PTok) (label : String) (ts : List PTok) : Option (FieldD × List PTok) :=
+  match typeName ts with
+  | some (ty, ⟨.ident name, _, _⟩ :: r) => (fieldTail r).map (mkField .field first.line first.cm label ty name)
+  | _ => none
+
+/-- `k, v> name = n […];` (after `map<`) -/
+def mapField (first : PTok) (label : String) (r : List PTok) : Option (FieldD × List PTok) :=
+  match typeName r with
+  | some (k, ⟨.sym ',', _, _⟩ :: r2) =>
+    (match typeName r2 with
+     | some (v, ⟨.sym '>', _, _⟩ :: ⟨.ident name, _, _⟩ :: r3) =>
+       (fieldTail r3).map (mkField .field first.line first.cm label ("map<" ++ k ++ ", " ++ v ++ ">") name)
+     | _ => none)
+  | _ => none
+
+/-- the field after its label: a map field or a plain one -/
+def fieldAfterLabel (first : PTok) (label : String) (ts : List PTok) : Option (FieldD × List PTok) :=
+  match ts with
+  | ⟨.ident s, l1, c1⟩ :: ⟨.sym c, l2, c2⟩ :: r =>
+    if s == "map" && c == '<' then mapField first label r
+    else plainField first label (⟨.ident s, l1, c1⟩ :: ⟨.sym c, l2, c2⟩ :: r)
+  | ts' => plainField first label ts'
+
 /-- a message field: `[repeated|optional] type name = n […];` or `map<k, v> name = n […];` -/
 def parseField (ts : List PTok) : Option (FieldD × List PTok) :=
   match ts with
   | [] => none
-  | t :: _ =>
-    let (label, ts') : String × List PTok :=
-      match ts with
-      | ⟨.ident "repeated", _, _⟩ :: r => ("repeated ", r)
-      | ⟨.ident "optional", _, _⟩ :: r => ("optional ", r)
-      | _ => ("", ts)
-    match ts' with
-    | ⟨.ident "map", _, _⟩ :: ⟨.sym '<', _, _⟩ :: r =>
-      (match typeName r with
-       | some (k, ⟨.sym ',', _, _⟩ :: r2) =>
-         (match typeName r2 with
-          | some (v, ⟨.sym '>', _, _⟩ :: ⟨.ident name, _, _⟩ :: r3) =>
-            (fieldTail r3).map (mkField .field t.line t.cm label ("map<" ++ k ++ ", " ++ v ++ ">") name)
-          | _ => none)
-       | _ => none)
-    | _ =>
-      match typeName ts' with
-      | some (ty, ⟨.ident name, _, _⟩ :: r) => (fieldTail r).map (mkField .field t.line t.cm label ty name)
-      | _ => none
+  | t :: _ => fieldAfterLabel t (splitLabel ts).1 (splitLabel ts).2
 
 /-- `option name = value ;` statements at the head of a body (the printer writes them first; a
 body may hold them anywhere, the caller loops) -/
@@ -446,7 +459,7 @@ def serviceBody : Nat → List PTok → List RawOpt → List Item → Option (Li
           | some (outT, ⟨.sym ';', le, _⟩ :: r3) =>
             serviceBody f r3 os (ms ++ [.rpc (mkLoc l le cm (trailOf r3)) 0 name inT outT []])
           | some (outT, ⟨.sym '{', _, _⟩ :: r3) =>
-            (match rpcBody (r3.length + 1) r3 [] with
+            (match rpcBody f r3 [] with
              | some (ros, le, r4) =>
                serviceBody f r4 os (ms ++ [.rpc (mkLoc l le cm (trailOf r3)) 0 name inT outT (mkOpts l ros)])
              | none => none)
@@ -469,12 +482,12 @@ def messageBody : Nat → List PTok → List RawOpt → List Item → Option (Li
        | some (mos, mks, le, r') => messageBody f r' os (ks ++ [.block "message" 1 (mkLoc l le cm (trailOf r)) 0 name (mkOpts l mos) mks])
        | none => none)
     | ⟨.ident "enum", l, cm⟩ :: ⟨.ident name, _, _⟩ :: ⟨.sym '{', _, _⟩ :: r =>
-      (match enumBody (r.length + 1) r [] [] with
+      (match enumBody f r [] [] with
        | some (eos, vs, le, r') =>
          messageBody f r' os (ks ++ [.block "enum" 2 (mkLoc l le cm (trailOf r)) 0 name (mkOpts l eos) (vs.map .field)])
        | none => none)
     | ⟨.ident "oneof", l, cm⟩ :: ⟨.ident name, _, _⟩ :: ⟨.sym '{', _, _⟩ :: r =>
-      (match oneofBody (r.length + 1) r [] [] with
+      (match oneofBody f r [] [] with
        | some (_, [], _, _) => none     -- "oneof must contain at least one field"
        | some (oos, fs, le, r') =>
          messageBody f r' os (ks ++ [.block "oneof" 0 (mkLoc l le cm (trailOf r)) 0 name (mkOpts l oos) (fs.map .field)])
@@ -530,24 +543,24 @@ def topLevel : Nat → List PTok → Acc → Option Acc
        | some (o, r) => topLevel f r { a with opts := a.opts ++ [o] }
        | none => none)
     | ⟨.ident "message", l, cm⟩ :: ⟨.ident name, _, _⟩ :: ⟨.sym '{', _, _⟩ :: r =>
-      (match messageBody (r.length + 1) r [] [] with
+      (match messageBody f r [] [] with
        | some (mos, mks, le, r') =>
          topLevel f r' { a with items := a.items ++ [.block "message" 1 (mkLoc l le cm (trailOf r)) 0 name (mkOpts l mos) mks] }
        | none => none)
     | ⟨.ident "enum", l, cm⟩ :: ⟨.ident name, _, _⟩ :: ⟨.sym '{', _, _⟩ :: r =>
-      (match enumBody (r.length + 1) r [] [] with
+      (match enumBody f r [] [] with
        | some (eos, vs, le, r') =>
          topLevel f r' { a with items := a.items ++ [.block "enum" 2 (mkLoc l le cm (trailOf r)) 0 name (mkOpts l eos) (vs.map .field)] }
        | none => none)
     | ⟨.ident "service", l, cm⟩ :: ⟨.ident name, _, _⟩ :: ⟨.sym '{', _, _⟩ :: r =>
-      (match serviceBody (r.length + 1) r [] [] with
+      (match serviceBody f r [] [] with
        | some (sos, ms, le, r') =>
          topLevel f r' { a with items := a.items ++ [.block "service" 0 (mkLoc l le cm (trailOf r)) 0 name (mkOpts l sos) ms] }
        | none => none)
     | ⟨.ident "extend", _, _⟩ :: r =>
       (match typeName r with
        | some (e, ⟨.sym '{', _, _⟩ :: r') =>
-         (match extendBody (r'.length + 1) r' [] with
+         (match extendBody f r' [] with
           | some (fs, r'') => topLevel f r'' { a with exts := a.exts ++ fs.map (fun x => (e, x)) }
           | none => none)
        | _ => none)
